@@ -43,6 +43,11 @@ type Request struct {
 	w          requestBodyWriter
 	body       *bytebufferpool.ByteBuffer
 
+	// Used by Server: a streamed request body was dropped (ResetBody,
+	// CloseBodyStream, SetBody...) before all of it was taken off the
+	// connection, so the next request cannot be read from that connection.
+	bodyStreamLeftover bool
+
 	multipartForm         *multipart.Form
 	multipartFormBoundary string
 
@@ -2413,6 +2418,9 @@ func (req *Request) closeBodyStream() error {
 		err = bsc.Close()
 	}
 	if rs, ok := req.bodyStream.(*requestStream); ok {
+		if !rs.drained() {
+			req.bodyStreamLeftover = true
+		}
 		releaseRequestStream(rs)
 	}
 	req.bodyStream = nil
